@@ -462,4 +462,211 @@ theorem expSomewhere_mono {a m : AstMap} (h : Ext a m) (k : String) (v : Path) :
     · exact Or.inl ⟨hh.1, h.maps _ _ hh.2⟩
     · exact Or.inr (expSomewhereL_mono k v kids ih pp 0 hh)
 
+/-! ### what `shallow_match_main` establishes -/
+
+theorem zipAll_imp {α β : Type} {f g : α → β → Bool} (h : ∀ a b, f a b = true → g a b = true) :
+    ∀ (l1 : List α) (l2 : List β), zipAll f l1 l2 = true → zipAll g l1 l2 = true := by
+  intro l1
+  induction l1 with
+  | nil => intro l2 _; cases l2 <;> rfl
+  | cons a as ih =>
+    intro l2 hz
+    cases l2 with
+    | nil => rfl
+    | cons b bs =>
+      simp only [zipAll, Bool.and_eq_true] at hz ⊢
+      exact ⟨h a b hz.1, ih bs hz.2⟩
+
+theorem zipAll_itemOk_eq : ∀ (I S : List Item), zipAll itemOk I S = true → I.length = S.length →
+    I.all Item.isPrim = true → S.all Item.isPrim = true → S = I := by
+  intro I
+  induction I with
+  | nil => intro S _ hl _ _; cases S with
+    | nil => rfl
+    | cons _ _ => simp at hl
+  | cons a as ih =>
+    intro S hz hl hI hS
+    cases S with
+    | nil => simp at hl
+    | cons b bs =>
+      simp only [zipAll, Bool.and_eq_true] at hz
+      simp only [List.all_cons, Bool.and_eq_true] at hI hS
+      simp only [List.length_cons, Nat.add_right_cancel_iff] at hl
+      have := ih bs hz.2 hl hI.2 hS.2
+      subst this
+      cases a with
+      | node => simp [Item.isPrim] at hI
+      | prim x =>
+        cases b with
+        | node => simp [Item.isPrim] at hS
+        | prim y =>
+          have : x = y := by simpa [itemOk] using hz.1
+          subst this; rfl
+
+theorem plainItems_some {v : FVal} {items : List Item} (h : plainItems v = some items) :
+    v.items = items ∧ items ≠ [] ∧ items.all Item.isPrim = true ∧ v ≠ FVal.none := by
+  cases v with
+  | none => simp [plainItems] at h
+  | one i =>
+    cases i with
+    | node => simp [plainItems] at h
+    | prim x =>
+      simp only [plainItems, Option.some.injEq] at h
+      subst h
+      simp [FVal.items, Item.isPrim]
+  | many l =>
+    simp only [plainItems] at h
+    split at h
+    · rename_i hc
+      simp only [Option.some.injEq] at h
+      subst h
+      simp only [Bool.and_eq_true, Bool.not_eq_true', List.isEmpty_eq_false_iff] at hc
+      exact ⟨rfl, hc.1, hc.2, by simp⟩
+    · cases h
+
+theorem lenGuard {I S : List Item}
+    (h : (!I.isEmpty && decide (I.length ≠ S.length) && (I ++ S).all Item.isPrim) = false)
+    (hne : I ≠ []) (hI : I.all Item.isPrim = true) (hS : S.all Item.isPrim = true) : I.length = S.length := by
+  by_cases hl : I.length = S.length
+  · exact hl
+  · exfalso
+    have h1 : I.isEmpty = false := by simpa using hne
+    have h2 : (I ++ S).all Item.isPrim = true := by rw [List.all_append, hI, hS]; rfl
+    rw [h1, h2] at h
+    simp [hl] at h
+
+theorem fieldOk_unfold {ig : List String} {fi fs : Fld} (hv : fi.val ≠ FVal.none) :
+    fieldOk ig fi fs =
+      ((fi.name = fs.name || ig.contains fi.name) &&
+        (ig.contains fi.name ||
+          (!(!fi.val.items.isEmpty && decide (fi.val.items.length ≠ fs.val.items.length) &&
+              (fi.val.items ++ fs.val.items).all Item.isPrim) &&
+            zipAll itemOk fi.val.items fs.val.items))) := by
+  cases hval : fi.val with
+  | none => exact absurd hval hv
+  | one i => simp only [fieldOk, hval]
+  | many l => simp only [fieldOk, hval]
+
+theorem fieldOk_content {ig : List String} {skip : Option String}
+    (hig : ∀ n, ig.contains n = true → structuralField n = true ∨ some n = skip) {fi fs : Fld}
+    (h : fieldOk ig fi fs = true) : fieldContentOk skip fi fs = true := by
+  simp only [fieldContentOk]
+  cases hp : plainItems fi.val with
+  | none => rfl
+  | some items =>
+    obtain ⟨h1, h2, h3, h4⟩ := plainItems_some hp
+    simp only [Bool.or_eq_true, decide_eq_true_eq, Bool.and_eq_true, Bool.not_eq_true']
+    rw [fieldOk_unfold h4] at h
+    simp only [Bool.and_eq_true, Bool.or_eq_true, decide_eq_true_eq, Bool.not_eq_true'] at h
+    by_cases hign : ig.contains fi.name = true
+    · rcases hig _ hign with hs | hs
+      · exact Or.inl (Or.inl hs)
+      · exact Or.inl (Or.inr hs)
+    · refine Or.inr ⟨?_, ?_⟩
+      · rcases h.1 with h' | h'
+        · exact h'
+        · exact absurd h' hign
+      · rcases h.2 with h' | h'
+        · exact absurd h' hign
+        · by_cases hS : fs.val.items.all Item.isPrim = true
+          · right
+            rw [h1] at h'
+            have hlen := lenGuard h'.1 h2 h3 hS
+            exact zipAll_itemOk_eq _ _ h'.2 hlen h3 hS
+          · left; simpa using hS
+
+theorem shallowMainB_spec {cm : Bool} {ig : List String} {skip : Option String} {p s : T}
+    (hig : ∀ n, ig.contains n = true → structuralField n = true ∨ some n = skip)
+    (h : shallowMainB cm ig p s = true) :
+    p.kind = s.kind ∧ metasMatch cm p s = true ∧ contentEq skip p s = true := by
+  simp only [shallowMainB, Bool.and_eq_true, decide_eq_true_eq] at h
+  obtain ⟨⟨⟨h1, h2⟩, h3⟩, h4⟩ := h
+  refine ⟨h2, h3, ?_⟩
+  simp only [contentEq, Bool.and_eq_true, decide_eq_true_eq]
+  exact ⟨Nat.le_of_eq h1, zipAll_imp (fun a b hab => fieldOk_content hig hab) _ _ h4⟩
+
+theorem shallowMain_some {cm : Bool} {ig : List String} {pp sp : Path} {p s : T} {b : AstMap}
+    (h : shallowMain cm ig pp p sp s = some b) : b = pairMap pp sp ∧ shallowMainB cm ig p s = true := by
+  simp only [shallowMain] at h
+  split at h
+  · rename_i hc; cases h; exact ⟨rfl, hc⟩
+  · cases h
+
+/-! ### what `shallow_match` establishes -/
+
+theorem nodeOk_of_content {m : AstMap} {p s : T} (hk : p.kind = s.kind) (hc : contentEq none p s = true) :
+    nodeOk m p s = true := by
+  simp only [nodeOk, Bool.and_eq_true, decide_eq_true_eq]
+  refine ⟨hk, ?_⟩
+  cases hi : identField p.kind with
+  | none => simp only [hc]
+  | some f => simp [hc]
+
+theorem nodeOk_of_bind {m : AstMap} {p s : T} {f : String} (hk : p.kind = s.kind)
+    (hf : identField p.kind = some f) (hv : nameClass (p.strAttr f) = .var)
+    (hb : hasBind m (p.strAttr f) (s.strAttr f) = true) : nodeOk m p s = true := by
+  simp only [nodeOk, Bool.and_eq_true, decide_eq_true_eq]
+  refine ⟨hk, ?_⟩
+  simp [hf, hv, hb]
+
+theorem nodeOk_of_wild {m : AstMap} {p s : T} {f : String} (hk : p.kind = s.kind)
+    (hf : identField p.kind = some f) (hw : nameClass (p.strAttr f) = .wild) : nodeOk m p s = true := by
+  simp only [nodeOk, Bool.and_eq_true, decide_eq_true_eq]
+  refine ⟨hk, ?_⟩
+  simp [hf, hw]
+
+theorem nodeOk_of_name {m : AstMap} {p s : T} {f : String} (hk : p.kind = s.kind)
+    (hf : identField p.kind = some f) (hc : contentEq (some f) p s = true)
+    (hn : p.strAttr f = s.strAttr f) : nodeOk m p s = true := by
+  simp only [nodeOk, Bool.and_eq_true, decide_eq_true_eq]
+  refine ⟨hk, ?_⟩
+  simp [hf, hc, hn]
+
+/-- facts about a map returned by `shallow_match(ins, std)` -/
+structure ShallowGood (b : AstMap) (cm : Bool) (pp : Path) (p : T) (sp : Path) (s : T) : Prop where
+  maps : b.mappings = [(pp, sp)]
+  inv : ConfInv b
+  noconf : b.conflicts = []
+  metas : p.kind = "Module" ∨ metasMatch cm p s = true
+  node : role p = .concrete → nodeOk b p s = true
+  exps : ∀ kv ∈ b.exps, role p = .expPh kv.1 ∧ kv.2 = sp ∧ p.kind = "Name"
+  expKey : ∀ k, role p = .expPh k → p.kind = "Name" → (dictGet k b.exps).isSome = true
+
+theorem pairMap_addBind_conflicts (pp sp : Path) (x : Bind) : ((pairMap pp sp).addBind x).conflicts = [] := by
+  simp [AstMap.addBind, pairMap, differs]
+
+theorem hasBind_addBind_self (m : AstMap) (x : Bind) : hasBind (m.addBind x) x.key x.id = true := by
+  simp [hasBind]
+
+theorem role_ne_concrete_of_name_exp {p : T} (hk : p.kind = "Name") (hc : nameClass (p.strAttr "id") = .exp) :
+    role p = .expPh (p.strAttr "id") := by
+  simp [role, hk, hc]
+
+theorem role_of_name_wild {p : T} (hk : p.kind = "Name") (hc : nameClass (p.strAttr "id") = .wild) :
+    role p = .wildcard := by
+  simp [role, hk, hc]
+
+theorem role_of_arg_wild {p : T} (hk : p.kind = "arg") (hc : nameClass (p.strAttr "arg") = .wild) :
+    role p = .wildcard := by
+  simp [role, hk, hc]
+
+theorem ctx_structural : ∀ n, ["ctx"].contains n = true → structuralField n = true ∨ some n = (none : Option String) := by
+  intro n hn
+  simp only [List.contains_eq_mem, List.mem_singleton, decide_eq_true_eq] at hn
+  subst hn; left; rfl
+
+theorem nil_structural (skip : Option String) :
+    ∀ n, ([] : List String).contains n = true → structuralField n = true ∨ some n = skip := by
+  intro n hn; simp at hn
+
+theorem shallowMain_good {cm : Bool} {ig : List String} {pp sp : Path} {p s : T} {b : AstMap}
+    (hig : ∀ n, ig.contains n = true → structuralField n = true ∨ some n = (none : Option String))
+    (hne : ∀ k, role p ≠ .expPh k ∨ p.kind ≠ "Name")
+    (h : shallowMain cm ig pp p sp s = some b) : ShallowGood b cm pp p sp s := by
+  obtain ⟨rfl, hb⟩ := shallowMain_some h
+  obtain ⟨h1, h2, h3⟩ := shallowMainB_spec hig hb
+  exact ⟨rfl, confInv_pairMap _ _, rfl, Or.inr h2, fun _ => nodeOk_of_content h1 h3,
+    fun kv hkv => by simp [pairMap] at hkv,
+    fun k hk hn => by rcases hne k with h' | h'; exact absurd hk h'; exact absurd hn h'⟩
+
 end Pedal.Cait
